@@ -168,4 +168,43 @@ def levelOps (toks : List Tok) : Cache → List (Str × Str) → Except Err Cach
     | .ok c' => levelOps toks c' r
     | .error e => .error e
 
+/-! ### the memoised cache of a colourising handler with a dynamic (callable) format -/
+
+/-- `core.levels_ansi_codes` and the handler's `lru_cache` over `prepare_colored_format(format_, ansi_level)`:
+the cache key is (format string, ANSI prefix of the level) – see `Markup.GenEmit.dynCacheKeys` -/
+structure Dyn where
+  ansi : List (Str × Str) := []
+  memo : List ((Str × Str) × Except Err Str) := []
+
+inductive DynOp where
+  | recolor (name color : Str)
+  | log (fmt name : Str)
+
+def memoFind {α} (k : Str × Str) : List ((Str × Str) × α) → Option α
+  | [] => none
+  | (k', v) :: r => if k' == k then some v else memoFind k r
+
+/-- one operation; a `log` returns the pre-colourised format the handler uses for this call (`prep` = the
+tokens of `Colorizer.prepare_format`; eviction from the LRU cache only forgets entries and is not modelled) -/
+def dynStep (prep : Str → List Tok) (d : Dyn) : DynOp → Except Err (Dyn × Option (Except Err Str))
+  | .recolor n c =>
+    match ansify c with
+    | .ok a => .ok ({ d with ansi := assoc n a d.ansi }, none)
+    | .error e => .error e
+  | .log fmt n =>
+    match find? n d.ansi with
+    | none => .ok (d, none)
+    | some a =>
+      match memoFind (fmt, a) d.memo with
+      | some r => .ok (d, some r)
+      | none =>
+        let r := colorize (prep fmt) (some a)
+        .ok ({ d with memo := ((fmt, a), r) :: d.memo }, some r)
+
+def dynRun (prep : Str → List Tok) : Dyn → List DynOp → Except Err Dyn
+  | d, [] => .ok d
+  | d, op :: r => match dynStep prep d op with
+    | .ok (d', _) => dynRun prep d' r
+    | .error e => .error e
+
 end Markup
